@@ -270,6 +270,7 @@ func init() {
 			{Scenario: "mux.seq", Params: vx.P("ops", "w1", "mem", "0", "seshclose", "1", "second", "1", "conns", "1"), Bound: b(1, 2), Weight: 5},
 			{Scenario: "mux.seq", Params: vx.P("ops", "w1", "mem", "0", "seshclose", "1", "conns", "3", "delay", "1"), Bound: b(1, 2), Weight: 5},
 			{Scenario: "mux.lateframe", Bound: b(1, 2), Weight: 3},
+			{Scenario: "mux.lateframe", Params: vx.P("cycles", "4200", "targets", map[bool]string{true: "few", false: "all"}[q]), Bound: 0, Weight: 9},
 			{Scenario: "mux.seq", Params: vx.P("ops", "w1", "openers", "3", "conns", "1", "mem", "0"), Bound: b(1, 2), Weight: 6},
 			{Scenario: "mux.seq", Params: vx.P("ops", "r256+256,c", "mem", "0"), Bound: b(2, 3), Weight: 6},
 			{Scenario: "mux.seq", Params: vx.P("ops", "r200,c"), Bound: b(1, 2), Weight: 6},
